@@ -52,6 +52,32 @@ Representable(cls) == \A i \in DOMAIN cls : cls[i] \in CharClasses
 HdrNameClasses == {"ascii", "punct", "pct", "latin1", "bmp", "astral",
                    "edgeblank"}
 
+(* Where the blanks of a value of class "edgeblank" stand.  A header VALUE  *)
+(* is abstracted to a string over {"b" = blank, "x" = any other character}; *)
+(* on the wire a blank is literal ("b") or escaped ("e" = %20).  What the   *)
+(* receiver reads (Received): literal blanks at the edges are dropped, then *)
+(* the escapes are undone.  The requirement on every sender is             *)
+(* Received(wire(v)) = v; the forms say which values a driver has to        *)
+(* produce: blanks after the text, before it, on both sides, and a value    *)
+(* that is NOTHING BUT blanks (leading and trailing blanks are then the     *)
+(* same characters: a sender that counts them separately doubles them).     *)
+EdgeBlankForms == {"trail", "lead", "both", "only"}
+HdrValues(n) == UNION {[1..k -> {"b", "x"}] : k \in 1..n}
+EdgeBlankFormOf(v) ==
+  IF \A i \in DOMAIN v : v[i] = "b" THEN "only"
+  ELSE IF v[1] = "b" /\ v[Len(v)] = "b" THEN "both"
+  ELSE IF v[1] = "b" THEN "lead"
+  ELSE IF v[Len(v)] = "b" THEN "trail"
+  ELSE "inner"
+RECURSIVE LStripB(_)
+LStripB(w) == IF w # <<>> /\ w[1] = "b" THEN LStripB(Tail(w)) ELSE w
+RECURSIVE RStripB(_)
+RStripB(w) == IF w # <<>> /\ w[Len(w)] = "b"
+              THEN RStripB(SubSeq(w, 1, Len(w) - 1)) ELSE w
+Received(w) ==
+  LET f == RStripB(LStripB(w)) IN
+  [i \in DOMAIN f |-> IF f[i] = "e" THEN "b" ELSE f[i]]
+
 (* ---- the body's method and target --------------------------------------- *)
 SeqToSet(s) == {s[i] : i \in DOMAIN s}
 
